@@ -16,9 +16,9 @@ GENERATORS = [('version2coq.py', 'Gen/VersionGen.v'), ('diff2coq.py', 'Gen/DiffG
               ('buildnames2coq.py', 'Gen/BuildNamesGen.v')]
 EXTRA_CONE = ['Model/StoreIO.v']
 META = {
-    'text': 'Theorems over Gallina definitions regenerated on every run from dawgie.Version by a fail-closed ast translator: <= is the lexicographic order, total/transitive/antisymmetric, the six operators and newer() mutually consistent, for all integer triples (unbounded Z). The build half (which algorithms a (re)load schedules) is proved over the scheduler model and tied to schedule.build/_diff by correspondence on generated engines. Persisted side: shelve.versions() is modelled (Catalogue.versions); util.dissect is proved to invert util.construct on names without a colon (unbounded: every name, parent id and integer version triple), hence every value row whose parent chain resolves is listed with exactly the names and versions it was registered with (C15_persisted_listed); tied to the real shelve back-end by the store correspondence and an oracle from the registered names; the order laws are also evaluated on every class that carries a version (Algorithm, Analyzer, Regression, Value, StateVector).',
-    'note': 'Trusted: Coq kernel; version2coq.py translator (validated each run on every pair over a finite domain incl. literals of the source); CPython int comparison; for the build half the hand-written scheduler model + correspondence driver. No axioms (Print Assumptions: closed).',
-    'technique': 'Coq proof over source-generated definitions + translator validation sweep + model/implementation correspondence',
+    'text': 'Theorems over Gallina definitions regenerated on every run from dawgie.Version by a fail-closed ast translator: <= is the lexicographic order, total/transitive/antisymmetric, the six operators and newer() mutually consistent, for all integer triples (unbounded Z). The build half (which algorithms a (re)load schedules) is proved over the scheduler model and tied to schedule.build/_diff by correspondence on generated engines. Persisted side: shelve.versions() is modelled (Catalogue.versions); util.dissect is proved to invert util.construct on names without a colon (unbounded: every name, parent id and integer version triple), hence every value row whose parent chain resolves is listed with exactly the names and versions it was registered with (C15_persisted_listed); tied to the real shelve back-end by the store correspondence and an oracle from the registered names; the order laws are also evaluated on every class that carries a version (Algorithm, Analyzer, Regression, Value, StateVector). End to end on names (Model/BuildNames.v over Gen/BuildNamesGen.v, regenerated on every run from schedule._diff, the set comprehension of schedule.build and the test of dag.Node.locate; the rest of build()/locate() pinned by its ast): for every list of registered identities (Store.register; names without colon and dot), every engine with dot-free, duplicate-free names, every graph and every iteration order, versions() does not raise and a node is pending/queued after build IFF it is the node of an algorithm one of whose versions (own, a state vector with values, a value) was never registered for exactly its (task, algorithm[, state vector[, value]]) name -- never-registered algorithms count as changed, names that extend or prefix a changed name (net.fit / net.fit2, cal.fit / cal.fitter) are not affected (C15_end_to_end, C15_changed_depends_on_own_name); after every algorithm recorded its identities nothing is rescheduled and a change confined to one algorithm reschedules exactly its node (C15_register_then_unchanged, C15_bump_reschedules_exactly_owner); the name-level build refines the id-level tables of Model/Build.v (C15_names_refine_tables/_build).',
+    'note': 'Trusted: Coq kernel; version2coq.py translator (validated each run on every pair over a finite domain incl. literals of the source); CPython int comparison; for the build half the hand-written scheduler model + correspondence driver; for the end-to-end half the translator buildnames2coq.py (fail closed, pins the untranslated statements of build()/Node.locate by ast), the hand models of pl.version.current and of the collation loop of shelve.versions() (Model/BuildNames.v) and Catalogue.versions/Store.register, all compared with the real record()/shelve.update/versions()/current()/build() chain on generated engines with confusable names (tools/harness/drive_buildnames.py; graphviz stubbed after the first two builds). Hypotheses of C15_end_to_end not checked on the code: algorithm names unique per task name, state-vector names unique per algorithm, value names unique per state vector, no dots/colons in names (compliance rules). No axioms (Print Assumptions: closed).',
+    'technique': 'Coq proof over source-generated definitions (Version operators, _diff at id and at name level, build() name cut, locate test) + translator validation sweep + model/implementation correspondence (scheduler build, shelve store histories, real registrations -> versions() -> current() -> build() end to end) + oracle from the registered identities',
 }
 
 OPS = ['__eq__', '__ne__', '__ge__', '__gt__', '__le__', '__lt__', 'newer']
@@ -75,7 +75,12 @@ def run(ctx):
         'domain, all 7 operators, real dawgie.Version vs generated Gallina '
         '(non-trivial = the two versions differ in a non-leading component '
         'only); build half: generated engines x persisted version tables x '
-        'bumps (non-trivial = at least one bumped and one unbumped algorithm)'
+        'bumps (non-trivial = at least one bumped and one unbumped algorithm); '
+        'end to end: generated engines with confusable names x generated registration '
+        'histories through the real record()/shelve.update (fates per algorithm: same, '
+        'every version registered but never together, algorithm/state-vector/value '
+        'version never registered, never registered at all) (non-trivial = confusable '
+        'names present, at least one changed and one unchanged algorithm)'
     )
     ctx.trust(
         'translator tools/translate/version2coq.py (python ast -> Gallina, '
